@@ -1,6 +1,6 @@
 (* Main.v — request dispatcher of the extracted model binary: one s-expression request per line,
    one s-expression answer per line. Definitions only. *)
-From FV Require Import Base AddrRange RouteMap Graph Netlist Hw Check.
+From FV Require Import Base AddrRange RouteMap Graph Netlist Hw Check Jobs.
 
 Definition sx_expected (x : sx) : res (string * (Z * Z)) :=
   match x with
@@ -53,6 +53,7 @@ Definition dispatch (cmd : string) (args : list sx) : res sx :=
   if str_eqb cmd "c17" then handle_c17 args
   else if str_eqb cmd "c16" then handle_c16 args
   else if str_eqb cmd "c18" then handle_c18 args
+  else if str_eqb cmd "c19" then handle_c19 args
   else if str_eqb cmd "chk" then
     match args with
     | nl :: checks => do n <- sx_netlist nl; do rs <- mapM (run_check n) checks; Ok (L rs)
